@@ -82,6 +82,8 @@ def classify_lock(b):
     except UnicodeDecodeError:
         return "C"
     lines = [l for l in t.splitlines() if l.strip() and not l.lstrip().startswith("#")]
+    if lines and lines[0].strip() == "---":          # an explicit document start, as older versions wrote it
+        lines = lines[1:]
     if len(lines) == 1:
         m = re.fullmatch(r"next_reference_id:\s*([0-9]+)\s*", lines[0])
         if m and int(m.group(1)) <= 4294967295:
